@@ -17,9 +17,9 @@ from props import sqlgen as G
 
 COQ_FILES = ["Route/Model.v", "Route/Spec.v", "Route/Proofs.v", "Route/Props.v"]
 F17 = "F17-batch-last-parse-role"
-F18 = "F23-table-lock-dropped-by-parser"
+F23 = "F23-table-lock-dropped-by-parser"
 # sqlparser 0.52 parse_as_table swallows the two tokens after `TABLE name`: the locking clause is lost
-F18_RE = re.compile(r"\bTABLE\s+[A-Za-z_\"][A-Za-z_0-9\"]*\s+FOR\s+(UPDATE|SHARE)\b", re.I)
+F23_RE = re.compile(r"\bTABLE\s+[A-Za-z_\"][A-Za-z_0-9\"]*\s+FOR\s+(UPDATE|SHARE)\b", re.I)
 
 # (parser, splitting, primary_reads, default_role)
 CFGS = [(p, s, r, d) for p in (True, False) for s in (True, False) for r in (False, True) for d in (None, "primary", "replica")]
@@ -42,15 +42,17 @@ def coq_cfg(c):
     return "(mk %s %s %s %s)" % (b(c[0]), b(c[1]), b(c[2]), d)
 
 
-PREAMBLE = """From Coq Require Import List Bool Arith.
+PREAMBLE = """From Coq Require Import List Bool Arith NArith.
 From PV Require Import Route.Model Route.Spec.
 Import ListNotations.
-Definition rc (r : option role) : nat := match r with None => 0 | Some Primary => 1 | Some Replica => 2 | Some Mirror => 3 end.
-Definition obs (cfg : settings) (st : rstate) := (rc (active_role st), parser_on cfg st, preads_on cfg st).
+Definition rc (r : option role) : N := match r with None => 0 | Some Primary => 1 | Some Replica => 2 | Some Mirror => 3 end%%N.
+Definition obs (cfg : settings) (st : rstate) : N := (rc (active_role st) * 4 + (if parser_on cfg st then 2 else 0) + (if preads_on cfg st then 1 else 0))%%N.
+(* one number per configuration: the per-step observations as base-16 digits, most significant = first step, leading 1 *)
+Definition pack (l : list N) : N := fold_left (fun acc d => acc * 16 + d)%%N l 1%%N.
 Definition mk p s r d := {| s_parser := p; s_splitting := s; s_primary_reads := r; s_default_role := d |}.
 Definition cfgs := [%s].
-Definition run (its : list item) := map (fun cfg => map (obs cfg) (session_trace cfg (init_state cfg) its)) cfgs.
-Definition cls (ms : list (list stmt)) := map (map plain_read) ms.
+Definition run (its : list item) := map (fun cfg => pack (map (obs cfg) (session_trace cfg (init_state cfg) its))) cfgs.
+Definition cls (ms : list (list stmt)) := map (fun m => pack (map (fun s => if plain_read s then 1 else 0)%%N m)) ms.
 """ % "; ".join(coq_cfg(c) for c in CFGS)
 
 
@@ -131,6 +133,20 @@ def wire_steps(steps, texts):
     return out
 
 
+def unpack(n, k):
+    """inverse of the Coq `pack`: k base-16 digits below a leading 1"""
+    ds = []
+    for _ in range(k):
+        ds.append(n % 16); n //= 16
+    if n != 1:
+        raise ValueError("pack/unpack length mismatch")
+    return ds[::-1]
+
+
+def dec_obs(d):
+    return (d // 4, bool(d & 2), bool(d & 1))
+
+
 def impl_obs(o):
     st = o["state"]
     return (ROLE_CODE[st["role"]], bool(st["parser"]), bool(st["primary_reads"]))
@@ -202,7 +218,7 @@ def check(run):
     router = bins["router"]
 
     # ---- 1. statements and messages ---------------------------------------------------------
-    stmts = G.statements(rng, 1400 if quick else 12000, 2 if quick else 4)
+    stmts = G.statements(rng, 2000 if quick else 12000, 2 if quick else 4)
     base = settings_json((True, True, False, None))
     res = RL.run_router(router, [{"settings": base, "steps": [{"op": "route", "proto": "Q", "sql": t}]} for t, _ in stmts])
     acc, rej_kinds = [], {}
@@ -232,7 +248,7 @@ def check(run):
         msgs.append((t + ";", [l]))
         msgs.append(("  " + t + " ;  ", [l]))
     # 2 and 3 statements, every order
-    nmulti = 260 if quick else 3000
+    nmulti = 340 if quick else 3000
     for _ in range(nmulti):
         kinds = [rng.choice(["plain", "plain", "wq", "other", "start"]) for _ in range(rng.choice([2, 2, 3]))]
         if all(k == "plain" for k in kinds) and rng.random() < 0.7:
@@ -342,7 +358,8 @@ def check(run):
         exprs.append("(run [%s])" % "; ".join(coq_item(s, asts) for s in seq))
     model_vals = None
     if proof_ok:
-        model_vals = vlib.coq_eval("c05ev", PREAMBLE, exprs, shard=max(50, len(exprs) // 16 + 1))
+        # NB vlib.coq_eval only drains a shard's stdout after coqc exits: keep each shard's output far below the 64 KB pipe buffer
+        model_vals = vlib.coq_eval("c05ev", PREAMBLE, exprs, shard=80)
     run.log("sessions: %d (+%d F17 batches), model evaluated: %s" % (len(sessions), len(f17), model_vals is not None))
 
     cases = []
@@ -381,7 +398,7 @@ def check(run):
             evals += 1
             run.cov["traces_validated_against_impl"] += 1
             if mrow is not None:
-                m = tuple(mrow[j])
+                m = dec_obs(unpack(mrow, len(outs))[j])
                 g = impl_obs(o)
                 if m != g:
                     ws = wire_steps(seq, texts)
@@ -395,7 +412,7 @@ def check(run):
 
     known = {e.get("id"): e for e in vlib.known_findings("C05")}
     stop = False
-    f18 = []
+    f23 = []
 
     def recorded(fid, text, replay_input):
         e = known.get(fid)
@@ -411,8 +428,9 @@ def check(run):
             accm = [m for m in mids if asts[m] is not None]
             for m, row in zip(accm, mv[1]):
                 want = [G.plain_stmt(l) for l in labels[m]]
-                if list(row) != want and len(spec_mism) < 20:
-                    spec_mism.append({"sql": texts[m], "spec_plain_read": list(row), "generator": want})
+                got = [bool(x) for x in unpack(row, len(asts[m]))]
+                if got != want and len(spec_mism) < 20:
+                    spec_mism.append({"sql": texts[m], "spec_plain_read": got, "generator": want})
         for ci, c in enumerate(CFGS):
             outs = res[pos]["out"]; pos += 1
             if stop:
@@ -427,8 +445,8 @@ def check(run):
                 if kind == "panic":
                     continue
                 ws = wire_steps(seq, texts)
-                if kind == "write-not-primary" and F18_RE.search(ws[j].get("sql", "")):
-                    f18.append({"settings": settings_json(c), "steps": ws, "step": j, "role": outs[j]["state"]["role"]})
+                if kind == "write-not-primary" and F23_RE.search(ws[j].get("sql", "")):
+                    f23.append({"settings": settings_json(c), "steps": ws, "step": j, "role": outs[j]["state"]["role"]})
                     continue
                 run.violation("counterexample", "%s at step %d: %r under parser=%s splitting=%s primary_reads=%s default_role=%s"
                               % (text, j, ws[j].get("sql", ws[j]["op"])[:200], c[0], c[1], c[2], c[3]),
@@ -437,7 +455,9 @@ def check(run):
                 stop = True
                 break
         if si in (0, 5, len(msgs) + 3) and mv is not None:
-            samples.append({"kind": "session", "steps": [w.get("sql", w["op"])[:100] for w in wire_steps(seq, texts)], "model_first_cfg": str(mv[0][0]), "impl_first_cfg": "see evidence"})
+            samples.append({"kind": "session", "steps": [w.get("sql", w["op"])[:100] for w in wire_steps(seq, texts)], "config": "parser on, splitting on, primary_reads off, default_role any",
+                            "model (role,parser,primary_reads) per step": [list(dec_obs(d)) for d in unpack(mv[0][0], len(seq))],
+                            "impl": [list(impl_obs(o)) for o in res[pos - len(CFGS)]["out"]]})
     # automatic sharding on: same model rows
     for si in ak_sessions:
         mv = vlib.parse_coq(model_vals[si]) if model_vals is not None else None
@@ -470,11 +490,11 @@ def check(run):
                 "the checkout role is the last Parse's / the stale one, e.g. Parse(%r) Bind Parse(%r) Bind Sync -> %s [%d occurrences this run; Route/Props.v c05_batch_refuted]"
                 % (f17_sample["steps"][0].get("sql", "")[:60], f17_sample["steps"][2].get("sql", "")[:40], f17_sample["final_role"], f17_hits))
         recorded(F17, text, f17_sample)
-    if f18:
-        w = f18[0]
-        recorded(F18, "a locking clause directly after `TABLE name` is swallowed by sqlparser 0.52 (parse_as_table): the accepted message %r is routed to %s [%d occurrences this run]"
-                 % (w["steps"][w["step"]]["sql"][:160], w["role"], len(f18)), w)
-    run.cov["f18_table_lock_dropped"] = len(f18)
+    if f23:
+        w = f23[0]
+        recorded(F23, "a locking clause directly after `TABLE name` is swallowed by sqlparser 0.52 (parse_as_table): the accepted message %r is routed to %s [%d occurrences this run]"
+                 % (w["steps"][w["step"]]["sql"][:160], w["role"], len(f23)), w)
+    run.cov["f23_table_lock_dropped"] = len(f23)
     run.cov["f17_batches"] = {"run": len(f17) * len(CFGS), "role_not_primary": f17_hits}
 
     if spec_mism and not run.violations:
